@@ -256,3 +256,82 @@ def run_c01(tier, seed, scale, verif):
 
     findings, inc, stats = drive(verif, "c01", cases, judge)
     return result(t0, cases, findings, inc, stats, shapes, samples, "harper-ls on hostile documents in every language id: %(cases)d documents, %(answered)d answered, %(restarts)d server restarts")
+
+
+def run_c05(tier, seed, scale, verif):
+    """C05 at the server: one long-lived document per session is changed again and again (texts assembled
+    from a small pool of clauses, fixed dialect and rule switches); whatever the history, each publish must be
+    exactly what the library reports for that text, language, dictionary and configuration."""
+    t0 = time.time()
+    groups = export(verif, "hist", int((160 if tier == "quick" else 3000) * scale) or 1, seed)
+    base = os.path.join(verif, "target", "run", "lsx_c05")
+    shutil.rmtree(base, ignore_errors=True)
+    os.makedirs(base)
+    findings, inconclusive = [], []
+    stats = {"histories": 0, "steps": 0, "diagnostics": 0, "repeated_texts": 0}
+    lock = threading.Lock()
+    nservers = 8
+
+    def session(k):
+        for gi, g in enumerate(groups[k::nservers]):
+            s = None
+            try:
+                s = Server(os.path.join(base, "s%d_%d" % (k, gi)), settings=g["settings"])
+                s.initialize()
+                uri = uri_for(os.path.join(s.workdir, "doc." + (EXT.get(g["lang"]) or "txt")))
+                seen = set()
+                trace = []
+                for i, st in enumerate(g["steps"]):
+                    n0 = s.n_publishes(uri)
+                    if i == 0:
+                        s.notify("textDocument/didOpen", {"textDocument": {"uri": uri, "languageId": g["lang"], "version": 1, "text": st["text"]}})
+                    else:
+                        s.notify("textDocument/didChange", {"textDocument": {"uri": uri, "version": i + 1}, "contentChanges": [{"text": st["text"]}]})
+                    trace.append(st["text"])
+                    if await_publish(s, uri, n0, 60.0) != "ok":
+                        raise client.ServerDied("no publish at step %d" % i)
+                    got = sorted(decode(st["text"], s.last_diagnostics(uri)), key=lambda x: (x[0] if x[0] is not None else -1, x[1] if x[1] is not None else -1, x[2]))
+                    exp = sorted((a, b, m) for a, b, m in st["expected"])
+                    with lock:
+                        stats["steps"] += 1
+                        stats["diagnostics"] += len(got)
+                        stats["repeated_texts"] += st["text"] in seen
+                        if got != exp:
+                            missing = [x for x in exp if x not in got]
+                            extra = [x for x in got if x not in exp]
+                            kind = "missing" if missing else "extra"
+                            m = (missing or extra or [(0, 0, "multiplicity")])[0]
+                            findings.append({"prop": "C05", "sig": "ls.history.%s@%s" % (kind, norm_msg(m[2])), "count": 1, "wlen": len(trace),
+                                             "witness": {"language_id": g["lang"], "settings": g["settings"], "texts_sent_to_one_document_in_order": list(trace)},
+                                             "detail": "step %d of a didChange history on one document: the library reports %d lints for this text, the server publishes %d; first %s: %r" % (i, len(exp), len(got), kind, m)})
+                    seen.add(st["text"])
+                with lock:
+                    stats["histories"] += 1
+            except (client.Timeout, client.ServerDied, OSError) as e:
+                with lock:
+                    inconclusive.append("session %d history %d: %s" % (k, gi, e))
+            finally:
+                if s is not None:
+                    try:
+                        s.shutdown()
+                    except Exception:
+                        s.kill()
+
+    threads = [threading.Thread(target=session, args=(k,)) for k in range(nservers)]
+    for t in threads:
+        t.start()
+    for t in threads:
+        t.join()
+    shutil.rmtree(base, ignore_errors=True)
+    merged = {}
+    for f in findings:
+        if f["sig"] not in merged:
+            merged[f["sig"]] = f
+        else:
+            merged[f["sig"]]["count"] += 1
+            if f["wlen"] < merged[f["sig"]]["wlen"]:
+                f["count"] = merged[f["sig"]]["count"]
+                merged[f["sig"]] = f
+    return {"evaluations": stats["steps"], "distinct_nontrivial": stats["histories"], "samples": [{"language_id": g["lang"], "settings": g["settings"], "steps": len(g["steps"]), "first_text": g["steps"][0]["text"][:100] if g["steps"] else ""} for g in groups[:2]],
+            "findings": list(merged.values()), "notes": ["harper-ls didChange histories on one document: %(histories)d histories, %(steps)d publishes compared with the library, %(repeated_texts)d texts sent more than once" % stats],
+            "inconclusive": inconclusive if len(inconclusive) > max(2, len(groups) // 10) else [], "counters": {"ls_" + k: v for k, v in stats.items()}, "wall_s": time.time() - t0}
